@@ -1,5 +1,12 @@
 /* bo_wrap.c - exports the helper set that avtp/Byteorder.h selects in this compilation
  * under a prefix (compiled twice: natively, and with __BYTE_ORDER__ forced to big-endian). */
+#ifdef VP_HOSTED_FIRST      /* an application includes libc headers (which define __LITTLE_ENDIAN, BYTE_ORDER, ...) first */
+#include <stdlib.h>
+#include <sys/types.h>
+#include <time.h>
+#include <endian.h>
+#include <arpa/inet.h>
+#endif
 #include "avtp/Byteorder.h"
 #define CAT2(a, b) a##b
 #define CAT(a, b) CAT2(a, b)
@@ -16,4 +23,30 @@ int CAT(PFX, selected_big_endian)(void)
 #else
     return 1;
 #endif
+}
+
+/* Calls with literal arguments: an implementation may take a different path for compile-time constants
+ * (__builtin_constant_p, constant folding), which a loop over run-time values never reaches. */
+#define K16 X(0x0000) X(0x0001) X(0x0100) X(0x00ff) X(0xff00) X(0x1234) X(0x8001) X(0xfffe) X(0xa55a) X(0x0180)
+#define K32 X(0x00000000u) X(0x00000001u) X(0x000000ffu) X(0x0000ff00u) X(0x00ff0000u) X(0xff000000u) X(0x01020304u) X(0x80000001u) \
+            X(0xfffefdfcu) X(0x12345678u) X(0x00010000u) X(0x00000100u) X(0x01000000u) X(0xdeadbeefu) X(0x7fffffffu) X(0xa5a55a5au)
+#define K64 X(0x0000000000000000ull) X(0x0000000000000001ull) X(0x00000000000000ffull) X(0x000000000000ff00ull) X(0x0000000000ff0000ull) \
+            X(0x00000000ff000000ull) X(0x000000ff00000000ull) X(0x0000ff0000000000ull) X(0x00ff000000000000ull) X(0xff00000000000000ull) \
+            X(0x0102030405060708ull) X(0x8000000000000001ull) X(0xfffefdfcfbfaf9f8ull) X(0x0123456789abcdefull) X(0x0000000100000000ull) \
+            X(0x0000010000000000ull) X(0x0001000000000000ull) X(0x0100000000000000ull) X(0x00000000ffffffffull) X(0xffffffff00000000ull) \
+            X(0xa5a5a5a55a5a5a5aull) X(0x7fffffffffffffffull) X(0x0000008000000000ull) X(0x1122334455667788ull)
+unsigned CAT(PFX, const_calls)(uint64_t* arg, uint64_t* res, unsigned char* fn, unsigned char* bits, unsigned max)
+{
+    unsigned n = 0;
+#define EMIT(B, fnid, call, k) if (n < max) { arg[n] = (k); res[n] = (call); fn[n] = (fnid); bits[n] = (B); n++; }
+#define X(k) EMIT(16, 0, Avtp_Bswap16(k), k) EMIT(16, 1, Avtp_CpuToLe16(k), k) EMIT(16, 2, Avtp_CpuToBe16(k), k) EMIT(16, 3, Avtp_LeToCpu16(k), k) EMIT(16, 4, Avtp_BeToCpu16(k), k)
+    K16
+#undef X
+#define X(k) EMIT(32, 0, Avtp_Bswap32(k), k) EMIT(32, 1, Avtp_CpuToLe32(k), k) EMIT(32, 2, Avtp_CpuToBe32(k), k) EMIT(32, 3, Avtp_LeToCpu32(k), k) EMIT(32, 4, Avtp_BeToCpu32(k), k)
+    K32
+#undef X
+#define X(k) EMIT(64, 0, Avtp_Bswap64(k), k) EMIT(64, 1, Avtp_CpuToLe64(k), k) EMIT(64, 2, Avtp_CpuToBe64(k), k) EMIT(64, 3, Avtp_LeToCpu64(k), k) EMIT(64, 4, Avtp_BeToCpu64(k), k)
+    K64
+#undef X
+    return n;
 }
